@@ -716,9 +716,9 @@ func (env *SpecEnv) evalCall(x *ECall) specVal {
 			return specVal{v: v.v, t: env.resolveType(ts.Val)}
 		case "loglen":
 			return specVal{v: leaf(u.logLen(env.st)), t: types.Typ[types.Int]}
-		case "logverb", "logobj", "lognamespaced", "logns", "logtype", "logsent", "logkeyns", "logkeyname":
+		case "logverb", "logobj", "lognamespaced", "logns", "logtype", "logsent", "logkeyns", "logkeyname", "logfailed":
 			k := env.evalTerm(x.Args[0])
-			f := map[string]string{"logverb": "verb", "logobj": "obj", "lognamespaced": "nsd", "logns": "ns", "logtype": "typ", "logsent": "sent", "logkeyns": "kns", "logkeyname": "kname"}[id.Name]
+			f := map[string]string{"logverb": "verb", "logobj": "obj", "lognamespaced": "nsd", "logns": "ns", "logtype": "typ", "logsent": "sent", "logkeyns": "kns", "logkeyname": "kname", "logfailed": "err"}[id.Name]
 			var t types.Type
 			if id.Name == "logverb" || id.Name == "logns" || id.Name == "logkeyns" || id.Name == "logkeyname" {
 				t = types.Typ[types.String]
